@@ -659,6 +659,8 @@ def _dtype(ex, st, ctx, args, kwargs):
 
 
 def _zeros_like_val(dtype, one=False):
+    if isinstance(dtype, ModuleRef):
+        dtype = dtype.path.split(".")[-1]
     if dtype in ("int64", "int32", "int"):
         return z3.IntVal(1 if one else 0)
     if dtype in ("bool",) or dtype is bool:
@@ -1153,6 +1155,8 @@ def _iff(ex, st, ctx, args, kwargs):
 @reg("between")
 def _between(ex, st, ctx, args, kwargs):
     """between(x, a, b): x lies in the closed hull of a and b (either order)."""
+    if any(isinstance(v, InfVal) for v in args):
+        return False
     x, a, b = [to_real(v) for v in args]
     return z3.Or(z3.And(a <= x, x <= b), z3.And(b <= x, x <= a))
 
@@ -1172,6 +1176,8 @@ def _ite(ex, st, ctx, args, kwargs):
 def _apply(ex, st, ctx, args, kwargs):
     """apply(f, x...): value of the uninterpreted callable without logging a call (spec use)."""
     f = args[0]
+    if isinstance(f, Ref) and st.obj(f).kind == "list" and len(st.obj(f).items) == 1:
+        f = st.obj(f).items[0]          # lifted list-of-callables: the element's own function
     if isinstance(f, UFunc) and f.mode == "real":
         return ex.uf(f.name, len(args) - 1)(*[to_real(a) for a in args[1:]])
     raise Havoc("apply")
